@@ -87,7 +87,7 @@ func fsPreCancelled(r *h.Run, spec treeSpec) {
 
 // a real deadline (with a cause) expiring while the k-th backend operation is in progress: kind timeout
 func fsTimerMidRun(r *h.Run) {
-	spec := treeSpec{Dirs: 2, Files: 2, Big: 70000, Empty: 1}
+	spec := treeSpec{Dirs: 2, Files: 2, Big: 70000, Empty: 1, Deep: 2}
 	type job struct {
 		ep *entryPoint
 		k  int64
@@ -162,10 +162,10 @@ var modelled = map[string]string{
 var fullCases = map[string]bool{"Walk": true, "Chmod": true, "ListDirTree": true, "Remove": true, "CleanDir": true, "Copy": true, "MoveNoRename": true}
 
 func fsSweeps(r *h.Run) {
-	small := treeSpec{Dirs: 3, Files: 3, Big: 70000}
-	specs := []treeSpec{small, {Dirs: 2, Files: 1, Big: 3000, Empty: 2}, {Dirs: 3, Files: 60, Big: 70000, Empty: 85}}
+	small := treeSpec{Dirs: 3, Files: 3, Big: 70000, Deep: 3}
+	specs := []treeSpec{small, {Dirs: 2, Files: 1, Big: 3000, Empty: 2, Deep: 4}, {Dirs: 3, Files: 60, Big: 70000, Empty: 85, Deep: 5}}
 	if r.Thorough() && !r.Deep { // a deepened run after a broken tie keeps to the three trees: it must stay within minutes
-		specs = append(specs, treeSpec{Dirs: 9, Files: 60, Big: 200000, Empty: 120})
+		specs = append(specs, treeSpec{Dirs: 9, Files: 60, Big: 200000, Empty: 120, Deep: 6})
 	}
 	type job struct {
 		ep   entryPoint
@@ -227,12 +227,12 @@ func fsSweeps(r *h.Run) {
 			t := coqTree(j.spec)
 			empty := "false None [] [] [] KNil 0 [] [] KCancelled"
 			r.Case(fmt.Sprintf("(mkCase (OpEpTotal %s %s %d) %s)", e, t, st.Total, empty), map[string]any{"entry_point": st.EP, "tree": j.spec, "total_ops": st.Total})
-			budget := 110 // correspondence cases per entry point and tree (every k is still run and judged by the oracle)
+			budget := 70 // correspondence cases per entry point and tree (every k is still run and judged by the oracle)
 			if j.i >= 2 {
-				budget = 60
+				budget = 40
 			}
 			if !fullCases[st.EP] {
-				budget = 25
+				budget = 15
 			}
 			step := len(st.Ks)/budget + 1
 			if step > 1 && step%2 == 0 {
@@ -241,6 +241,8 @@ func fsSweeps(r *h.Run) {
 			for i := 0; i < len(st.Ks); i += step {
 				r.Case(fmt.Sprintf("(mkCase (OpEpAfter %s %s %d %d) %s)", e, t, st.Ks[i], st.Afters[i], empty),
 					map[string]any{"entry_point": st.EP, "tree": j.spec, "k": st.Ks[i], "ops_after_cancel": st.Afters[i]})
+				r.Case(fmt.Sprintf("(mkCase (OpEpOutcome %s %s %d %s) %s)", e, t, st.Ks[i], h.Bool(st.Errored[i]), empty),
+					map[string]any{"entry_point": st.EP, "tree": j.spec, "k": st.Ks[i], "errored": st.Errored[i]})
 			}
 			r.Case(fmt.Sprintf("(mkCase (OpEpBound %s %d) %s)", e, st.MaxAfter, empty), map[string]any{"entry_point": st.EP, "tree": j.spec, "max_ops_after_cancel": st.MaxAfter})
 		}
@@ -337,7 +339,7 @@ func main() {
 	ioRandom(r, r.N(60, 1500), true) // oracle only
 	ioFiles(r)
 	coverageNote(r)
-	fsPreCancelled(r, treeSpec{Dirs: 4, Files: 3, Big: 100000, Empty: 2})
+	fsPreCancelled(r, treeSpec{Dirs: 4, Files: 3, Big: 100000, Empty: 2, Deep: 2})
 	fsSweeps(r)
 	fsTimerMidRun(r)
 	osLinks(r)
@@ -351,7 +353,7 @@ func osLinks(r *h.Run) {
 		return
 	}
 	defer osScratchCleanup()
-	spec := treeSpec{Dirs: 2, Files: 2, Big: 40000, Empty: 1}
+	spec := treeSpec{Dirs: 2, Files: 2, Big: 40000, Empty: 1, Deep: 3}
 	osRot := int(r.Seed)
 	for _, ep := range entryPoints() {
 		ep := ep
